@@ -438,7 +438,32 @@ func c09Mirror(p *Prog, r *Report) {
 			continue
 		}
 		info := fi.Pkg.TypesInfo
-		f := p.FlatOf(fi)
+		// methods of a search-index type are spliced in; the list's own methods are not
+		f := p.FlatInlExcept(fi, p.methodsOf("internal/model/core", "List")...)
+		var isArr func(x ast.Expr) bool
+		isArr = func(x ast.Expr) bool {
+			for {
+				x = ast.Unparen(x)
+				if st, ok := x.(*ast.StarExpr); ok {
+					x = st.X
+					continue
+				}
+				if u, ok := x.(*ast.UnaryExpr); ok && u.Op == token.AND {
+					x = u.X
+					continue
+				}
+				break
+			}
+			if sel, ok := x.(*ast.SelectorExpr); ok {
+				return sel.Sel.Name == "arr"
+			}
+			if o := objOf(info, x); o != nil && f.Alias != nil {
+				if al, ok := f.Alias[o]; ok {
+					return isArr(al)
+				}
+			}
+			return false
+		}
 		var recv types.Object
 		if len(fi.Decl.Recv.List[0].Names) == 1 {
 			recv = info.Defs[fi.Decl.Recv.List[0].Names[0]]
@@ -492,16 +517,16 @@ func c09Mirror(p *Prog, r *Report) {
 						if p.callIs(fi.Pkg, c, m.listOp) {
 							listCalled = true
 						}
-						if idn, ok := c.Fun.(*ast.Ident); ok && idn.Name == "copy" && len(c.Args) == 2 && arrShape(info, c.Args[1]) == "reslice-from-1" {
-							if sel, ok := ast.Unparen(c.Args[0]).(*ast.SelectorExpr); ok && sel.Sel.Name == "arr" {
+						if idn, ok := c.Fun.(*ast.Ident); ok && idn.Name == "copy" && len(c.Args) == 2 && arrShapeWith(info, c.Args[1], isArr) == "reslice-from-1" {
+							if isArr(c.Args[0]) {
 								shape += "shift;"
 							}
 						}
 					}
-					if as, ok := a.(*ast.AssignStmt); ok && len(as.Lhs) == 1 {
-						if sel, ok := as.Lhs[0].(*ast.SelectorExpr); ok && sel.Sel.Name == "arr" {
+					if as, ok := a.(*ast.AssignStmt); ok && len(as.Lhs) == 1 && f.Nodes[id].Synth == "" {
+						if isArr(as.Lhs[0]) {
 							touched = true
-							shape += arrShape(info, as.Rhs[0]) + ";"
+							shape += arrShapeWith(info, as.Rhs[0], isArr) + ";"
 						}
 					}
 				}
@@ -967,11 +992,15 @@ func c17Clamp(p *Prog, r *Report) {
 
 // arrShape classifies the new value of the array mirror: append / drop-last / reslice-from-1 / other.
 func arrShape(info *types.Info, e ast.Expr) string {
-	e = ast.Unparen(e)
-	isArr := func(x ast.Expr) bool {
+	return arrShapeWith(info, e, func(x ast.Expr) bool {
 		sel, ok := ast.Unparen(x).(*ast.SelectorExpr)
 		return ok && sel.Sel.Name == "arr"
-	}
+	})
+}
+
+// arrShapeWith classifies an expression that rebuilds the search array; isArr tells which expressions denote it.
+func arrShapeWith(info *types.Info, e ast.Expr, isArr func(ast.Expr) bool) string {
+	e = ast.Unparen(e)
 	switch x := e.(type) {
 	case *ast.CallExpr:
 		if id, ok := x.Fun.(*ast.Ident); ok && id.Name == "append" && len(x.Args) == 2 && isArr(x.Args[0]) {
